@@ -46,6 +46,14 @@ def family_result(name, tier):
         rjobs.append((exes[j["tag"]], os.path.join(wdir, j["tag"] + ".ndjson"), j.get("env")))
     vlib.run_recorders(rjobs, timeout=fam.get("record_timeout", 1200))
     log("[%s] recorded in %.1fs" % (name, time.time() - t1))
+    if os.environ.get("VERIF_RECORD_ONLY"):      # development aid: size of a tier without judging it
+        n = 0
+        for _, out, _ in rjobs:
+            with open(out, "rb") as f:
+                n += sum(1 for _ in f)
+        log("[%s] RECORD_ONLY tier=%s lines=%d" % (name, tier, n))
+        shutil.rmtree(wdir, ignore_errors=True)
+        raise SystemExit(0)
     t2 = time.time()
     merged = vlib.merge_streams([out for _, out, _ in rjobs], os.path.join(wdir, name + ".all.ndjson"))
     for _, out, _ in rjobs:
